@@ -43,7 +43,7 @@ template <typename T> static std::string asg2(const Words& w) {
   long tk, tP, k1, P1, k2, P2;
   if (!two(w[5], tk, tP) || !two(w[6], k1, P1) || !two(w[7], k2, P2)) return "bad-op";
   bool ok; const char* pat = shape_expr(shape, ok);
-  if (!ok || m < 1 || n < 1 || m > 8 || n > 200) return "bad-op";
+  if (!ok || m < 1 || n < 1 || m > 80 || n > 200) return "bad-op";
   if ((tP && tk + n > tP) || (P1 && k1 + n > P1) || (P2 && k2 + n > P2)) return "bad-op";
   Mat<T> tg(m, n, tk, tP, -1), a(m, n, k1, P1, 0), b(m, n, k2, P2, 1), c(m, n, k2, P2, 2);
   std::ostringstream g;
